@@ -222,6 +222,26 @@ IntOp(op, a, b) ==
       [] op = ">" -> Ok(VBool(a > b))
       [] op = ">=" -> Ok(VBool(a >= b))
 
+(* calls of `aiken/builtin` functions on byte arrays (non-commutative, partial) *)
+RECURSIVE BytesLess(_, _)
+BytesLess(a, b) ==          \* lexicographic, a proper prefix is smaller
+    IF b = <<>> THEN FALSE
+    ELSE IF a = <<>> THEN TRUE
+    ELSE IF a[1] # b[1] THEN a[1] < b[1]
+    ELSE BytesLess(Tail(a), Tail(b))
+Clamp(x, lo, hi) == IF x < lo THEN lo ELSE IF x > hi THEN hi ELSE x
+BuiltinCall(f, vs) ==
+    CASE f = "append_bytearray"           -> Ok(VBytes(vs[1].bs \o vs[2].bs))
+      [] f = "less_than_bytearray"        -> Ok(VBool(BytesLess(vs[1].bs, vs[2].bs)))
+      [] f = "less_than_equals_bytearray" -> Ok(VBool(vs[1].bs = vs[2].bs \/ BytesLess(vs[1].bs, vs[2].bs)))
+      [] f = "length_of_bytearray"        -> Ok(VInt(Len(vs[1].bs)))
+      [] f = "index_bytearray"            -> IF vs[2].n >= 0 /\ vs[2].n < Len(vs[1].bs) THEN Ok(VInt(vs[1].bs[vs[2].n + 1])) ELSE Abort
+      [] f = "cons_bytearray"             -> IF vs[1].n >= 0 /\ vs[1].n <= 255 THEN Ok(VBytes(<<vs[1].n>> \o vs[2].bs)) ELSE Abort
+      [] f = "slice_bytearray"            ->      \* slice(start, length, bytes): clamped, never fails
+            LET n == Len(vs[3].bs) st == Clamp(vs[1].n, 0, n) ln == Clamp(vs[2].n, 0, n - Clamp(vs[1].n, 0, n))
+            IN  Ok(VBytes(SubSeq(vs[3].bs, st + 1, st + ln)))
+      [] OTHER -> Unknown
+
 RECURSIVE Eval(_, _, _, _), EvalSeq(_, _, _, _), EvalWhen(_, _, _, _, _), Apply(_, _, _, _)
 
 EvalSeq(m, env, es, fuel) == [i \in 1..Len(es) |-> Eval(m, env, es[i], fuel)]
@@ -260,6 +280,7 @@ Eval(m, env, e, fuel) ==
                  ELSE IF e.op = "==" THEN Ok(VBool(VEq(rs.v[1], rs.v[2])))
                  ELSE IF e.op = "!=" THEN Ok(VBool(~VEq(rs.v[1], rs.v[2])))
                  ELSE IntOp(e.op, rs.v[1].n, rs.v[2].n)
+      [] e.k = "bcall" -> LET rs == Lift(EvalSeq(m, env, e.args, fuel)) IN IF rs.r # "ok" THEN rs ELSE BuiltinCall(e.f, rs.v)
       [] e.k = "and"   ->     \* and { a, b, c }: left to right, short-circuit
             IF e.es = <<>> THEN Ok(VBool(TRUE))
             ELSE LET l == Eval(m, env, e.es[1], fuel) IN
